@@ -193,4 +193,13 @@ def wellTyped : SE → Bool
   | .unlessOn l r => isVec l && isVec r && wellTyped l && wellTyped r
   | _ => true
 
+/-- `parseBinOps`, `or`: the right-hand branches are declared dead when no left-hand source can be empty
+(`lhsCanBeEmpty`); for a left side with one source: it always returns and no comparison guards it -/
+def orRhsDead (l : SE) : Bool := (static l).always && !(static l).cond
+
+/-- `x or on() y` on vectors without labels: everything of `x`, and `y` only when `x` is empty -/
+def evalOrOn : Val → Val → Val
+  | .v x, .v y => if x.isSome then .v x else .v y
+  | a, _ => a
+
 end Pint.StaticFlow
